@@ -1,0 +1,14 @@
+//go:build verif
+
+package escapes
+
+// Delegation contracts (C20): the helper hands exactly its text to html/template's escaper.
+// Comment-only; checked by /verif/bin/plushvc.
+
+//@ func HTMLEscape
+//@ requires help != nil
+//@ ensures safe: err == nil ==> escfree(result)
+//@ ensures direct: !hasblock(help) ==> err == nil && result == htmlesc(s)
+//@ ensures fail: err != nil ==> result == ""
+//@ errprop
+//@ assigns mapsof("map[string]interface{}"), fresh
